@@ -22,7 +22,7 @@ Ltac wp_step :=
   | |- wp (setlo _) _ _ _ => unfold setlo; apply wp_modify
   end.
 Ltac wp_steps := repeat wp_step.
-Ltac hl := unfold hlen, olen in *; cbn [hgl hB hel orem oit oB main lo] in *.
+Ltac hl := unfold hlen, olen, hb_ins, hb_del, hb_upd, hb_rebuilt, hb_empty in *; cbn [hgl hB hn hel orem oit ocnt oB main lo] in *.
 
 (* what a panic may be, and that it leaves a state satisfying I *)
 Definition upost (I : rt -> Prop) : panic -> st -> Prop :=
@@ -141,36 +141,35 @@ Proof.
   - destruct (cap_to_buckets cap) as [B|] eqn:EB.
     + destruct (layout_ok (cesz c) B).
       * apply wp_bind. apply frame0_use; [apply frame0_tick|].
-        intros [] s' Hs. apply wp_ret. apply HS; [exact Hs|reflexivity| |reflexivity|].
-        -- split; [cbn [hgl hB hel]; rewrite hlen_empty; lia|].
-           intros k e H. cbn in H. rewrite lookup_empty in H. discriminate.
-        -- cbn [hgl hB]. apply bcap_cap_to_buckets; [lia|exact EB].
+        intros [] s' Hs. apply wp_ret. apply HS; [exact Hs|reflexivity|apply hb_ok_empty|reflexivity|].
+        cbn [hb_empty hgl hB]. apply bcap_cap_to_buckets; [lia|exact EB].
       * destruct fallible; [apply wp_ret; auto|apply wp_unwind; auto].
     + destruct fallible; [apply wp_ret; auto|apply wp_unwind; auto].
 Qed.
 
 
 Lemma hb_ok_insert t e g :
-  hb_ok t -> hel t !! ek e = None -> g + hlen t + 1 <= bcap (hB t) ->
-  hb_ok (HB (hB t) g (<[ek e := e]> (hel t))).
+  hb_ok t -> hel t !! ek e = None -> g + hn t + 1 <= bcap (hB t) ->
+  hb_ok (hb_ins t e g).
 Proof.
-  intros [Hcap Hkey] Hnone Hg. split.
-  - pose proof (hlen_insert_None t (ek e) e Hnone). hl. lia.
-  - intros k e'. cbn [hel]. destruct (N.eq_dec k (ek e)) as [->|Hne].
+  intros (Hcap & Hn & Hkey) Hnone Hg. split; [|split].
+  - hl. lia.
+  - hl. rewrite size_insert_None by exact Hnone. lia.
+  - intros k e'. hl. destruct (N.eq_dec k (ek e)) as [->|Hne].
     + rewrite lookup_insert. intros [= <-]. reflexivity.
     + rewrite lookup_insert_ne by congruence. apply Hkey.
 Qed.
 
 Lemma hb_put_spec t e reuse (Q : hb -> st -> Prop) (U : panic -> st -> Prop) s :
   hb_ok t -> hel t !! ek e = None -> (reuse = false -> 0 < hgl t) ->
-  (forall t', hb_ok t' -> hel t' = <[ek e := e]> (hel t) -> hB t' = hB t ->
+  (forall t', hb_ok t' -> hel t' = <[ek e := e]> (hel t) -> hB t' = hB t -> hn t' = hn t + 1 ->
               hgl t' <= hgl t -> hgl t <= hgl t' + 1 -> Q t' s) ->
   wp (hb_put t e reuse) Q U s.
 Proof.
   intros Hok Hnone Hgl HQ. unfold hb_put. destruct reuse.
   - destruct (N.eqb_spec (hb_tombs t) 0) as [Hz|Hz]; [apply wp_oracle|].
     apply wp_ret. apply HQ; try reflexivity; [|cbn; lia].
-    apply hb_ok_insert; [exact Hok|exact Hnone|]. unfold hb_tombs in Hz. lia.
+    apply hb_ok_insert; [exact Hok|exact Hnone|]. unfold hb_tombs, hlen in Hz. lia.
   - destruct (N.eqb_spec (hgl t) 0) as [Hz|Hz]; [specialize (Hgl eq_refl); lia|].
     apply wp_ret. apply HQ; try reflexivity; [|cbn; lia|cbn; lia].
     apply hb_ok_insert; [exact Hok|exact Hnone|]. destruct Hok as [Hcap _]. lia.
@@ -179,26 +178,26 @@ Qed.
 Lemma hb_insert_no_grow_spec t e (Q : hb -> st -> Prop) (U : panic -> st -> Prop) s :
   hb_ok t -> hel t !! ek e = None -> 0 < hgl t ->
   (forall t' s', s_rt s' = s_rt s -> hb_ok t' -> hel t' = <[ek e := e]> (hel t) -> hB t' = hB t ->
-                 hgl t' <= hgl t -> hgl t <= hgl t' + 1 -> Q t' s') ->
+                 hn t' = hn t + 1 -> hgl t' <= hgl t -> hgl t <= hgl t' + 1 -> Q t' s') ->
   wp (hb_insert_no_grow t e) Q U s.
 Proof.
   intros Hok Hnone Hgl HQ. unfold hb_insert_no_grow. rewrite Hnone.
   apply wp_bind. apply take_bit_rt. intros b s' Hs.
   apply hb_put_spec; [exact Hok|exact Hnone|intros _; exact Hgl|].
-  intros t' H1 H2 H3 H4 H5. apply HQ; assumption.
+  intros t' H1 H2 H3 H4 H5 H6. apply HQ; assumption.
 Qed.
 
 Lemma hb_reserve_rehash1_spec t (Q : hb -> st -> Prop) (U : panic -> st -> Prop) s :
   hb_ok t ->
-  (forall t' s', s_rt s' = s_rt s -> hb_ok t' -> hel t' = hel t -> 0 < hgl t' -> Q t' s') ->
+  (forall t' s', s_rt s' = s_rt s -> hb_ok t' -> hel t' = hel t -> hn t' = hn t -> 0 < hgl t' -> Q t' s') ->
   (forall p s', s_rt s' = s_rt s -> p = PUser \/ p = PCapOverflow -> U p s') ->
   wp (hb_reserve_rehash1 c t) Q U s.
 Proof.
-  intros [Hcap Hkey] HQ HU. unfold hb_reserve_rehash1.
+  intros (Hcap & Hn & Hkey) HQ HU. unfold hb_reserve_rehash1.
   destruct (N.leb_spec (hlen t + 1) (bcap (hB t) / 2)) as [Hhalf|Hhalf].
   - apply wp_bind. apply frame_use; [apply frame_rehash_all| |].
-    + intros [] s' Hs. apply wp_ret. apply HQ; [exact Hs| |reflexivity|].
-      * split; [hl; lia|exact Hkey].
+    + intros [] s' Hs. apply wp_ret. apply HQ; [exact Hs| |reflexivity|reflexivity|].
+      * split; [hl; lia|split; [exact Hn|exact Hkey]].
       * assert (bcap (hB t) / 2 <= bcap (hB t)) by (apply N.div_le_upper_bound; lia). hl. lia.
     + intros s' Hs. apply HU; auto.
   - apply wp_bind. apply hb_with_capacity_spec.
@@ -206,8 +205,8 @@ Proof.
       apply wp_bind. apply wp_on_unwind.
       eapply frameU_use; [apply frame_rehash_all| |].
       * intros [] s2 Hs2. apply wp_bind. apply frame0_use; [apply frame0_hb_free|].
-        intros [] s3 Hs3. apply wp_ret. apply HQ; [congruence| |reflexivity|].
-        -- split; [|exact Hkey]. destruct Hnt as [Hnt _]. hl. rewrite Hempty, map_size_empty in Hnt. lia.
+        intros [] s3 Hs3. apply wp_ret. apply HQ; [congruence| |reflexivity|reflexivity|].
+        -- split; [|split; [exact Hn|exact Hkey]]. hl. lia.
         -- hl. lia.
       * intros p s2 Hs2 ->. apply frame0_use; [apply frame0_hb_free|].
         intros [] s3 Hs3. apply HU; [congruence|auto].
@@ -217,7 +216,7 @@ Qed.
 
 Lemma hb_insert_spec t e (Q : hb -> st -> Prop) (U : panic -> st -> Prop) s :
   hb_ok t -> hel t !! ek e = None ->
-  (forall t' s', s_rt s' = s_rt s -> hb_ok t' -> hel t' = <[ek e := e]> (hel t) ->
+  (forall t' s', s_rt s' = s_rt s -> hb_ok t' -> hel t' = <[ek e := e]> (hel t) -> hn t' = hn t + 1 ->
                  (0 < hgl t -> hB t' = hB t /\ hgl t' <= hgl t /\ hgl t <= hgl t' + 1) -> Q t' s') ->
   (forall p s', s_rt s' = s_rt s -> p = PUser \/ p = PCapOverflow -> U p s') ->
   wp (hb_insert c t e) Q U s.
@@ -227,29 +226,30 @@ Proof.
   destruct (negb b && (hgl t =? 0)) eqn:Eg.
   - apply andb_prop in Eg as [Eb Ez]. apply N.eqb_eq in Ez.
     apply wp_bind. apply wp_on_unwind. apply hb_reserve_rehash1_spec; [exact Hok| |].
-    + intros t1 s2 Hs2 Hok1 Hel1 Hgl1.
+    + intros t1 s2 Hs2 Hok1 Hel1 Hn1 Hgl1.
       apply hb_put_spec; [exact Hok1|rewrite Hel1; exact Hnone|intros _; exact Hgl1|].
-      intros t' H1 H2 H3 H4 H5. apply HQ; [congruence|exact H1|rewrite H2, Hel1; reflexivity|lia].
+      intros t' H1 H2 H3 H4 H5 H6. apply HQ; [congruence|exact H1|rewrite H2, Hel1; reflexivity|lia|lia].
     + intros p s2 Hs2 Hp. apply frame0_use; [apply frame0_drop_elem|].
       intros [] s3 Hs3. apply HU; [congruence|exact Hp].
   - apply hb_put_spec; [exact Hok|exact Hnone| |].
     + intros ->. cbn in Eg. destruct (N.eqb_spec (hgl t) 0); [discriminate|lia].
-    + intros t' H1 H2 H3 H4 H5. apply HQ; [exact Hs1|exact H1|exact H2|intros _; auto].
+    + intros t' H1 H2 H3 H4 H5 H6. apply HQ; [exact Hs1|exact H1|exact H2|exact H4|intros _; auto].
 Qed.
 
 Lemma hb_remove_spec t k e (Q : elem * hb -> st -> Prop) (U : panic -> st -> Prop) s :
   hb_ok t -> hel t !! k = Some e ->
   (forall t' s', s_rt s' = s_rt s -> hb_ok t' -> hel t' = delete k (hel t) -> hB t' = hB t ->
-                 hgl t <= hgl t' -> hgl t' <= hgl t + 1 -> Q (e, t') s') ->
+                 hn t' + 1 = hn t -> hgl t <= hgl t' -> hgl t' <= hgl t + 1 -> Q (e, t') s') ->
   wp (hb_remove t k) Q U s.
 Proof.
-  intros [Hcap Hkey] Hsome HQ. unfold hb_remove. rewrite Hsome.
+  intros (Hcap & Hn & Hkey) Hsome HQ. unfold hb_remove. rewrite Hsome.
   apply wp_bind. apply take_tomb_rt. intros b s' Hs. apply wp_ret.
-  pose proof (hlen_delete_Some t k e Hsome) as Hlen.
-  apply HQ; [exact Hs| |reflexivity|reflexivity|destruct b; cbn; lia|destruct b; cbn; lia].
-  split.
+  pose proof (size_delete_Some (hel t) k e Hsome) as Hlen.
+  apply HQ; [exact Hs| |reflexivity|reflexivity|hl; lia|destruct b; cbn; lia|destruct b; cbn; lia].
+  split; [|split].
   - hl. destruct b; lia.
-  - intros j e'. cbn [hel]. intros H. apply lookup_delete_Some in H as [_ H]. apply Hkey. exact H.
+  - hl. lia.
+  - intros j e'. hl. intros H. apply lookup_delete_Some in H as [_ H]. apply Hkey. exact H.
 Qed.
 
 
@@ -257,10 +257,14 @@ Qed.
 
 (* old_ok without the headroom clause *)
 Definition old_pre (t : hb) (o : old) : Prop :=
-  oit o = olen o /\ NoDup (map ek (orem o)) /\ (forall e, e ∈ orem o -> hel t !! ek e = None).
+  oit o = ocnt o /\ ocnt o = N.of_nat (length (orem o)) /\
+  NoDup (map ek (orem o)) /\ (forall e, e ∈ orem o -> hel t !! ek e = None).
 
 Lemma old_ok_pre t o : old_ok R t o -> old_pre t o.
-Proof. intros (H1 & H2 & H3 & _). repeat split; assumption. Qed.
+Proof. intros (H1 & H2 & H3 & H4 & _). repeat split; assumption. Qed.
+
+Lemma old_pre_ok t o : old_pre t o -> need (ocnt o) R <= hgl t -> old_ok R t o.
+Proof. intros (H1 & H2 & H3 & H4) H5. repeat split; assumption. Qed.
 
 Notation with_lo r o := (RT (main r) o) (only parsing).
 Notation with_main r t := (RT t (lo r)) (only parsing).
@@ -274,18 +278,14 @@ Proof.
   - wp_steps. apply HQ. rewrite <- E. destruct (s_rt s); reflexivity.
 Qed.
 
-Lemma abs_pop t B e r n :
+Lemma abs_pop t B e r g n i1 c1 i2 c2 :
   hel t !! ek e = None ->
-  rt_abs (RT (HB (hB t) n (<[ek e := e]> (hel t))) (Some (Old B r 0))) = rt_abs (RT t (Some (Old B (e :: r) 0))).
+  rt_abs (RT (HB (hB t) g n (<[ek e := e]> (hel t))) (Some (Old B r i1 c1)))
+  = rt_abs (RT t (Some (Old B (e :: r) i2 c2))).
 Proof.
   intros Hnone. unfold rt_abs. cbn [main lo hel orem]. rewrite list_to_emap_cons.
   rewrite <- insert_union_l. rewrite <- insert_union_r by exact Hnone. reflexivity.
 Qed.
-
-Lemma rt_abs_oit t B l i j : rt_abs (RT t (Some (Old B l i))) = rt_abs (RT t (Some (Old B l j))).
-Proof. reflexivity. Qed.
-Lemma rt_abs_none_nil t B i : rt_abs (RT t None) = rt_abs (RT t (Some (Old B [] i))).
-Proof. reflexivity. Qed.
 
 (* budget for [fuel] more moves with n elements left *)
 Definition budget (fuel n gl : N) : Prop :=
@@ -310,11 +310,11 @@ Definition carry_Q (r : rt) (fuel : N) (r' : rt) : Prop :=
   hgl (main r') <= hgl (main r) /\
   match lo r with
   | Some o =>
-      hgl (main r) <= hgl (main r') + N.min fuel (olen o) /\
-      hlen (main r') = hlen (main r) + N.min fuel (olen o) /\
+      hgl (main r) <= hgl (main r') + N.min fuel (ocnt o) /\
+      hn (main r') = hn (main r) + N.min fuel (ocnt o) /\
       match lo r' with
-      | Some o' => olen o' + N.min fuel (olen o) = olen o /\ fuel < olen o /\ oB o' = oB o
-      | None => olen o <= fuel
+      | Some o' => ocnt o' + N.min fuel (ocnt o) = ocnt o /\ fuel < ocnt o /\ oB o' = oB o
+      | None => ocnt o <= fuel
       end
   | None => False
   end.
@@ -324,35 +324,37 @@ Definition carry_U (r : rt) (p : panic) (s' : st) : Prop :=
 Lemma carry_loop_spec fuel : forall s o,
   0 < R -> N.of_nat fuel <= R ->
   lo (s_rt s) = Some o -> hb_ok (main (s_rt s)) -> old_pre (main (s_rt s)) o ->
-  budget (N.of_nat fuel) (olen o) (hgl (main (s_rt s))) ->
+  budget (N.of_nat fuel) (ocnt o) (hgl (main (s_rt s))) ->
   wp (carry_loop fuel) (fun _ s' => carry_Q (s_rt s) (N.of_nat fuel) (s_rt s')) (carry_U (s_rt s)) s.
 Proof.
   induction fuel as [|fuel IH]; intros s o HR HfR Hlo Hok Hpre Hbud.
   - (* after the loop *)
-    cbn [carry_loop]. wp_steps. rewrite Hlo. destruct (N.eqb_spec (olen o) 0) as [Hz|Hz]; cbn [when].
+    cbn [carry_loop]. wp_steps. rewrite Hlo. unfold olen.
+    destruct (N.eqb_spec (ocnt o) 0) as [Hz|Hz]; cbn [when].
     + apply free_old_spec. intros s' Hs'. unfold carry_Q. rewrite Hs', Hlo. cbn [main lo].
-      assert (Hnil : orem o = []) by (apply olen_0; exact Hz).
+      destruct Hpre as (Hit & Hc & Hnd & Hdis).
+      assert (Hnil : orem o = []) by (apply ocnt_0; assumption).
       split; [split; [exact HR|split; [exact Hok|exact I]]|].
-      split. { destruct (s_rt s) as [t lo0]. cbn in *. subst lo0. destruct o as [B l i]. cbn in Hnil. subst l. reflexivity. }
+      split. { destruct (s_rt s) as [t lo0]. cbn in *. subst lo0. destruct o as [B l i n]. cbn in Hnil. subst l. reflexivity. }
       repeat split; try lia.
     + apply wp_ret. unfold carry_Q. rewrite Hlo.
-      split. { split; [exact HR|]. split; [exact Hok|]. rewrite Hlo. destruct Hpre as (H1 & H2 & H3).
-               repeat split; try assumption. unfold budget in Hbud. cbn in Hbud.
-               destruct (N.ltb_spec 0 (olen o)); [|lia]. rewrite N.sub_0_r in Hbud. lia. }
+      split. { split; [exact HR|]. split; [exact Hok|]. rewrite Hlo. apply old_pre_ok; [exact Hpre|].
+               unfold budget in Hbud. cbn [N.of_nat] in Hbud.
+               destruct (N.ltb_spec 0 (ocnt o)); [|lia]. rewrite N.sub_0_r in Hbud. lia. }
       repeat split; try lia.
   - cbn [carry_loop]. destruct (s_rt s) as [t lo0] eqn:Ert. cbn [lo main] in *. subst lo0.
-    destruct o as [B l i]. destruct Hpre as (Hit & Hnd & Hdis). cbn [oit orem olen] in *.
-    apply wp_bind. unfold old_pop. wp_steps. rewrite Ert. cbn [lo oit orem oB].
+    destruct o as [B l i n]. destruct Hpre as (Hit & Hc & Hnd & Hdis). cbn [oit orem ocnt] in *.
+    apply wp_bind. unfold old_pop. wp_steps. rewrite Ert. cbn [lo oit orem oB ocnt].
     destruct (N.eqb_spec i 0) as [Hi|Hi].
     + (* iterator exhausted: release the old table *)
       apply wp_ret. apply free_old_spec. intros s' Hs'. rewrite Ert in Hs'. cbn [main] in Hs'.
-      assert (Hnil : l = []) by (destruct l; [reflexivity|rewrite olen_Old in Hit; cbn [length] in Hit; lia]). subst l.
-      unfold carry_Q. rewrite Hs'. cbn [main lo olen orem length].
+      assert (Hnil : l = []) by (destruct l; [reflexivity|cbn [length] in Hc; lia]). subst l.
+      unfold carry_Q. rewrite Hs'. cbn [main lo ocnt].
       split; [split; [exact HR|split; [exact Hok|exact I]]|].
-      split; [reflexivity|]. cbn [olen orem length]. repeat split; try lia.
-    + destruct l as [|e l]; [rewrite olen_Old in Hit; cbn [length] in Hit; lia|].
+      split; [reflexivity|]. repeat split; try lia.
+    + destruct l as [|e l]; [cbn [length] in Hc; lia|].
       wp_steps. cbn [set_rt s_rt]. rewrite Ert. cbn [main].
-      set (s1 := set_rt (RT t (Some (Old B l (i - 1)))) s).
+      set (s1 := set_rt (RT t (Some (Old B l (i - 1) (n - 1)))) s).
       (* the element is now owned by the call *)
       apply frame0_use; [apply frame0_tick|]. intros [] s2 Hs2.
       assert (Hnd' : NoDup (map ek l)) by (cbn in Hnd; apply NoDup_cons in Hnd; tauto).
@@ -360,49 +362,48 @@ Proof.
       assert (Hel : forall x, x ∈ l -> ek x <> ek e).
       { intros x Hx Heq. cbn in Hnd. apply NoDup_cons in Hnd as [Hnin _]. apply Hnin.
         rewrite <- Heq. apply elem_of_list_fmap. exists x. auto. }
-      assert (Holen : olen (Old B (e :: l) i) = olen (Old B l (i - 1)) + 1) by (unfold olen; cbn; lia).
-      unfold budget in Hbud. rewrite Holen in Hbud.
+      assert (Hn1 : n = (n - 1) + 1 /\ n - 1 = N.of_nat (length l)) by (cbn [length] in Hc; lia).
+      destruct Hn1 as [Hn1 Hc']. unfold budget in Hbud. rewrite Hn1 in Hbud.
       assert (Hgl1 : 0 < hgl t).
-      { destruct (N.ltb_spec (N.of_nat (S fuel)) (olen (Old B l (i - 1)) + 1)); lia. }
+      { destruct (N.ltb_spec (N.of_nat (S fuel)) (n - 1 + 1)); lia. }
       apply wp_bind. apply wp_on_unwind. eapply frameU_use; [apply frame_tick_hash| |].
       * intros [] s3 Hs3. apply wp_bind. unfold main_insert_no_grow. wp_steps.
         rewrite Hs3, Hs2. cbn [s1 set_rt s_rt main].
         apply hb_insert_no_grow_spec; [exact Hok|exact He|exact Hgl1|].
-        intros t' s4 Hs4 Hok' Hel' HB' Hle Hge. wp_steps. cbn [set_rt s_rt].
+        intros t' s4 Hs4 Hok' Hel' HB' Hn' Hle Hge. wp_steps. cbn [set_rt s_rt].
         rewrite Hs4, Hs3, Hs2. cbn [s1 set_rt s_rt main lo].
         set (s5 := set_rt _ s4).
-        eapply wp_conseq; [apply (IH s5 (Old B l (i - 1))); [exact HR|lia| | | |]| |].
+        eapply wp_conseq; [apply (IH s5 (Old B l (i - 1) (n - 1))); [exact HR|lia| | | |]| |].
         -- reflexivity.
         -- exact Hok'.
-        -- repeat split; [unfold olen in *; cbn in *; lia|exact Hnd'|].
+        -- repeat split; [cbn [oit ocnt]; lia|exact Hc'|exact Hnd'|].
            intros x Hx. cbn [s5 set_rt s_rt main]. rewrite Hel'.
            rewrite lookup_insert_ne by (apply not_eq_sym, Hel; exact Hx). apply Hdis. right. exact Hx.
-        -- cbn [s5 set_rt s_rt main]. unfold budget.
-           destruct (N.ltb_spec (N.of_nat (S fuel)) (olen (Old B l (i - 1)) + 1)) as [Hlt|Hge'];
-           destruct (N.ltb_spec (N.of_nat fuel) (olen (Old B l (i - 1)))) as [Hlt'|Hge'']; try lia.
-           replace (olen (Old B l (i - 1)) + 1 - N.of_nat (S fuel)) with (olen (Old B l (i - 1)) - N.of_nat fuel) in Hbud by lia.
+        -- cbn [s5 set_rt s_rt main ocnt]. unfold budget.
+           destruct (N.ltb_spec (N.of_nat (S fuel)) (n - 1 + 1)) as [Hlt|Hge'];
+           destruct (N.ltb_spec (N.of_nat fuel) (n - 1)) as [Hlt'|Hge'']; try lia.
+           replace (n - 1 + 1 - N.of_nat (S fuel)) with (n - 1 - N.of_nat fuel) in Hbud by lia.
            lia.
-        -- intros [] s6 HQ. unfold carry_Q in *. cbn [s5 set_rt s_rt main lo] in HQ.
+        -- intros [] s6 HQ. unfold carry_Q in *. cbn [s5 set_rt s_rt main lo ocnt oB] in HQ.
            destruct HQ as (HI & Habs & HB6 & Hgl6 & Hgl6' & Hlen6 & Hlo6).
            split; [exact HI|]. split.
-           { rewrite Habs. destruct t' as [B' g' m']. cbn in Hel', HB'. subst m' B'.
-             rewrite (rt_abs_oit _ B l (i - 1) 0), (rt_abs_oit _ B (e :: l) i 0). apply abs_pop. exact He. }
-           cbn [main lo]. rewrite Holen.
-           assert (Hlen' : hlen t' = hlen t + 1).
-           { unfold hlen. rewrite Hel'. apply hlen_insert_None. exact He. }
+           { rewrite Habs. destruct t' as [B' g' n' m']. cbn in Hel', HB'. subst m' B'.
+             apply abs_pop. exact He. }
+           cbn [main lo ocnt oB].
            split; [congruence|]. split; [lia|]. split; [lia|]. split; [lia|].
            destruct (lo (s_rt s6)) as [o6|]; [|lia].
-           destruct Hlo6 as (H1 & H2 & H3). cbn [oB] in *. repeat split; lia.
+           destruct Hlo6 as (H1 & H2 & H3). repeat split; lia.
         -- intros p s6 (HI & -> & Hsub). split; [exact HI|]. split; [reflexivity|].
            etransitivity; [exact Hsub|]. cbn [s5 set_rt s_rt].
-           destruct t' as [B' g' m']. cbn in Hel', HB'. subst m' B'.
-           rewrite (rt_abs_oit _ B l (i - 1) 0), (rt_abs_oit _ B (e :: l) i 0), abs_pop by exact He. reflexivity.
+           destruct t' as [B' g' n' m']. cbn in Hel', HB'. subst m' B'.
+           rewrite (abs_pop t B e l g' n' (i - 1) (n - 1) i n) by exact He. reflexivity.
       * (* the hasher panicked: the element in flight is dropped, everything else is consistent *)
         intros p s3 Hs3 ->. apply frame0_use; [apply frame0_drop_elem|]. intros [] s4 Hs4.
         unfold carry_U. rewrite Hs4, Hs3, Hs2. cbn [s1 set_rt s_rt].
         split.
         { split; [exact HR|]. split; [exact Hok|]. cbn [lo main].
-          repeat split; [unfold olen in *; cbn in *; lia|exact Hnd'|intros x Hx; apply Hdis; right; exact Hx|].
+          repeat split; [cbn [oit ocnt olen]; unfold olen; cbn [ocnt]; lia|exact Hc'|exact Hnd'|intros x Hx; apply Hdis; right; exact Hx|].
+          unfold olen. cbn [ocnt].
           apply (need_after_loss (N.of_nat (S fuel))); [exact HR|lia|exact HfR|exact Hbud]. }
         split; [reflexivity|].
         unfold rt_abs. cbn [main lo orem]. rewrite list_to_emap_cons.
